@@ -5,6 +5,7 @@ import subprocess
 
 import core
 from props import nlpboosts
+from props import gosort
 
 PROP = dict(
     id="C01",
@@ -174,17 +175,27 @@ ASSERTIONS += ["bm25f:" + s for s in ("fieldBM25", "fieldBM25:param-types", "fie
                                       "bm25IDF", "bm25IDF:shape", "bm25IDF:arg")]
 PROP["level_text"] += (" Props/C01d.lean: the argument of math.Log in bm25IDF is translated from the source on every run and shown >= 1 over the reals for "
                        "df <= N (`idf_source_nonneg`), so the idf >= 0 hypothesis is discharged for the source's formula up to math.Log ~ Real.log.")
+# Props/C01c.lean: the same with the fuzzy library's sort.Stable MODELLED (Model/GoSort.lean) - no hypothesis about the sort left
+THEOREMS += ["Wtf.C01." + t for t in ("fuzzySortOK_of_goStable", "universal_modelled_sorted", "suggestions_sorted", "fuzzy_sort_contract")]
+PROP["level_text"] += (" Props/C01c.lean: Go's sort.Stable (insertion sort on blocks of 20, symMerge passes, rotate, swapRange) is transliterated "
+                       "(Model/GoSort.lean) and run with the fuzzy library's non-strict Less (Score >=); it is proved to permute its input and to "
+                       "leave it ordered by non-increasing score (Proofs/GoSort.lean), so universal_modelled_sorted states the five clauses for "
+                       "SearchUniversal over every modelled layer with no hypothesis about the library's sort; the tie is the gosort correspondence "
+                       "domain (model vs the real sort.Stable on fuzzy.Matches and vs fuzzy.Find, tie order included) and the fz line of every "
+                       "search-family case, which the driver now compares with the model's order.")
 
 
 def run(ctx):
     ctx.stage_xlate(required_assertions=ASSERTIONS)
-    ctx.stage_prove(THEOREMS, extra_targets=["WtfModel.Props.C01b", "WtfModel.Props.C01d"])
+    ctx.stage_prove(THEOREMS, extra_targets=["WtfModel.Props.C01b", "WtfModel.Props.C01c", "WtfModel.Props.C01d"])
     if not ctx.stage_build():
         return
     quick = ctx.tier == "quick"
     # the modelled NLP layer against the real calculateIntentBoost / calculateBoostForCommand / analysis (the search streams below
     # run the model with that layer and also compare it with the real values of each of their cases)
     nlpboosts.correspond(ctx, 250 if quick else 6000)
+    # the model of the fuzzy library's sort.Stable (universal_modelled_sorted runs on it) against the toolchain's
+    gosort.correspond(ctx, 200 if quick else 3000, seed_offset=13, hit_props=["C07"])
     ctx.correspond("search", 400 if quick else 10000, nontrivial=nontrivial, shrink=False)
     ctx.correspond("search", 150 if quick else 4000, name="search-c01", args={"stream": "c01"}, nontrivial=nontrivial, shrink=False, seed_offset=3)
     ctx.correspond("legacy", 300 if quick else 8000, nontrivial=nontrivial, shrink=False, seed_offset=5)
